@@ -496,3 +496,26 @@ example : List.Pairwise (· ≥ ·) ((finalOf exSingle).jobs 0).hist := status_m
 
 end Job
 end VarmqVerif
+
+namespace VarmqVerif
+namespace Job
+
+/-- Acknowledge is called only by the goroutine that closed the job, on a Closed job whose worker
+    function is not running -/
+theorem ack_by_closer {s s' : State} {g j : Nat} (h : Reach s) (hst : step s (.ack g j) = .ok s') :
+    (s.jobs j).st = closed ∧ (s.jobs j).exited = (s.jobs j).entered ∧ (s.jobs j).acks = 0 := by
+  have hown : (s.loc g).owesDone = some j ∧ (s.jobs j).acks = 0 := by
+    simp only [step] at hst
+    split at hst
+    · cases hst
+    · split at hst
+      · cases hst
+      · rename_i h1 h2
+        constructor
+        · simpa using h1
+        · simpa using h2
+  have hd := (done_owner_unique h hown.1 hown.1).2
+  exact ⟨hd.1, closed_not_running h hd.1, hown.2⟩
+
+end Job
+end VarmqVerif
